@@ -1072,6 +1072,8 @@ class PDFDocument:
         if start in visited:
             return
         visited.add(start)
+        if start < 0:
+            raise PDFNoValidXRef("Negative offset of a cross-reference section")
         parser.seek(start)
         parser.reset()
         try:
